@@ -9,7 +9,7 @@ use std::rc::Rc;
 pub const DEF: PropDef = PropDef {
     id: "C13",
     level: "exploration",
-    rule: "(valid program) x (statement position) x (context-independent syntax fault): (1) 14 hand-written contexts (first/last line, after blank lines, after a two-line comment, after two-line strings with and without suffix, inside if / else / nested loops / function bodies, with and without final newline) x the fault catalogue; (2) every block-nesting shape up to 5 (thorough 6) nodes x every simple-statement position x the fault catalogue; (3) every shape x every block header x header faults; fault catalogue = statements with the last required operand removed, with a required keyword removed, two statements joined on one line, an invalid identifier, an unterminated string, an unterminated comment; oracle: parse returns Err and the rendered message names the line on which the offending or missing token lies (known by construction); non-trivial = all cases; distinct = distinct text",
+    rule: "(valid program) x (statement position) x (context-independent syntax fault): (1) 20 hand-written contexts (first/last line, after blank lines, after a two-line comment, after two-line strings with and without suffix, inside if / else / nested loops / function bodies, with and without final newline) x the fault catalogue; (2) every block-nesting shape up to 5 (thorough 6) nodes x every simple-statement position x the fault catalogue; (3) every shape x every block header x header faults; fault catalogue = statements with the last required operand removed, with a required keyword removed, two statements joined on one line, an invalid identifier, an unterminated string, an unterminated comment; oracle: parse returns Err and the rendered message names the line on which the offending or missing token lies (known by construction); non-trivial = all cases; distinct = distinct text",
     assumptions: &["only faults whose effect does not depend on the surrounding program are injected, so the expected line is known by construction", "the error message format `Parse error (line N): ...` is the observation interface"],
     build,
     exhaustive: true,
@@ -56,6 +56,11 @@ pub const CONTEXTS: &[(&str, &str, bool)] = &[
     ("fun takes k\n", "\nsay 9\n", true),
     ("fun takes k\nwhile k\nsay 1\n", "", false),
     ("x says it's (all) \"good\"\n", "say 9\n", true),
+    // closing delimiter as the first character of its line; several line breaks in one token
+    ("(a\n)\nsay 1\n", "say 9\n", true),
+    ("say \"a\n\"\n", "say 9\n", true),
+    ("(a\n\n\nb)\nput \"\n\n\" into y\n", "say 9\n", true),
+    ("(\n)say 1 (\n\n) (b\n)\n", "say 9\n", true),
 ];
 
 /// faults spanning two lines: (text, line offset of the offending token)
